@@ -29,7 +29,15 @@ Fixpoint cut_at (c : N) (s : bytes) : option (bytes * bytes) :=
 (* bytes.Trim(s, string(c)) for a single ASCII byte c *)
 Fixpoint trim_left (c : N) (s : bytes) : bytes :=
   match s with [] => [] | x :: t => if x =? c then trim_left c t else s end.
-Definition trim_byte (c : N) (s : bytes) : bytes := rev (trim_left c (rev (trim_left c s))).
+Fixpoint trim_right (c : N) (s : bytes) : bytes :=
+  match s with
+  | [] => []
+  | x :: t => match trim_right c t with
+              | [] => if x =? c then [] else [x]
+              | y :: r => x :: y :: r
+              end
+  end.
+Definition trim_byte (c : N) (s : bytes) : bytes := trim_right c (trim_left c s).
 
 (* pieces written one after the other with c before every piece but the first *)
 Fixpoint join (c : N) (l : list bytes) : bytes :=
